@@ -40,6 +40,40 @@ def truth_of(pa, r):
     return None
 
 
+def frame_facts(prog, pa):
+    """what a path of a builder routine knows about the frame on top of the decoding stack:
+    (TOP item term, record term, stack empty? (True/False/None), map count odd? (True/False/None))"""
+    stack_off = prog.field_offset("_cbor_decoder_context", "stack")
+    top_off = prog.field_offset("_cbor_stack", "top")
+    size_off = prog.field_offset("_cbor_stack", "size")
+    item_off = prog.field_offset("_cbor_stack_record", "item")
+    sub_off = prog.field_offset("_cbor_stack_record", "subitems")
+    TOP = REC = None
+    for e in pa.events:
+        b_ = ptr_key(e.args[0])[0] if e.kind == "load" else None
+        if e.kind == "load" and ptr_key(e.args[0])[1] == item_off and isinstance(b_, tuple) and b_[0] == "ld" and b_[2] == top_off and \
+                isinstance(b_[1], tuple) and b_[1][0] == "ld" and b_[1][2] == stack_off:
+            TOP, REC = e.res, b_
+            break
+    empty = None
+    parity = None
+    for t, truth, _ in pa.facts:
+        if t[0] == "icmp" and t[3] == ("c", 0) and isinstance(t[2], tuple) and t[2][0] == "ld" and t[2][2] == size_off and \
+                isinstance(t[2][1], tuple) and t[2][1][0] == "ld" and t[2][1][2] == stack_off:
+            if t[1] in ("eq", "ule"):
+                empty = bool(truth)
+            elif t[1] in ("ugt", "ne"):
+                empty = not truth
+        u, neg = t, False
+        if t[0] == "icmp" and t[1] in ("eq", "ne") and t[3] == ("c", 0):
+            u, neg = t[2], t[1] == "eq"
+        if isinstance(u, tuple) and u[0] == "op" and ((u[1] == "urem" and u[4] == ("c", 2)) or (u[1] == "and" and ("c", 1) in (u[3], u[4]))):
+            x_ = u[3] if u[3][0] != "c" else u[4]
+            if isinstance(x_, tuple) and x_[0] == "ld" and x_[2] == sub_off:
+                parity = (truth != neg)
+    return TOP, REC, empty, parity
+
+
 def check_automaton(chk, rule, prog, eff, cache, CS):
     """The transition table of the tree builder: what _cbor_builder_append does with a finished item, by the kind of the
     frame on top of the decoding stack (read off the path's facts through the predicate algebra, not off the code's
@@ -340,9 +374,9 @@ def run(ctx, chk):
                     ok = c == ("c", cnt)
                 ok = ok and pushes[0].args[1] == cs[0].res
                 if cnt in ("size", "2*size"):
-                    ok = ok and pa.st.lo.get(("arg", 1), 0) >= 1
+                    ok = ok and pa.st.known_positive(("arg", 1))
                 chk.ob("C02.counter", "%s pushes expected-children = %s" % (fn, cnt), ok, pushes[0].ins.loc(), fn=fn, key="count:%s:%d" % (field, k),
-                       detail="" if ok else "pushes %s (size known positive: %s)" % (DR.fmt_term(c), pa.st.lo.get(("arg", 1), 0) >= 1))
+                       detail="" if ok else "pushes %s (size known positive: %s)" % (DR.fmt_term(c), pa.st.known_positive(("arg", 1))))
             else:
                 ok = cnt in ("size", "2*size") and len(app) == 1 and app[0].args[0] == cs[0].res and (pa.st.hi.get(("arg", 1), 1) == 0 or pa.st.eqc.get(("arg", 1)) == 0)
                 chk.ob("C02.counter", "%s: only an empty definite container is appended without a frame" % fn, ok, where, fn=fn, key="empty:%s:%d" % (field, k))
@@ -424,20 +458,15 @@ def run(ctx, chk):
         pops = pa.calls("_cbor_stack_pop")
         apps = pa.calls("_cbor_builder_append")
         se = any(e.kind == "store" and ptr_key(e.args[0])[1] == se_off and e.args[1] == ("c", 1) for e in pa.events)
+        TOP, _REC, empty, parity = frame_facts(prog, pa)
         if pops or apps:
-            nonempty = any(t[0] == "icmp" and t[1] == "ugt" and t[3] == ("c", 0) and truth and isinstance(t[2], tuple) and t[2][0] == "ld" and t[2][2] == size_off
-                           for t, truth, _ in pa.facts)
-            ind = [e for e in pa.calls("_cbor_is_indefinite") if truth_of(pa, e.res) is True]
-            item = ind[0].args[0] if ind else None
-            parity = False
-            for t, truth, _ in pa.facts:
-                s = repr(t)
-                if ("'urem'" in s or "'and'" in s) and "icmp" in s:
-                    parity = True
-            notmap = any(t[0] == "icmp" and t[1] == "eq" and t[3] == ("c", T["CBOR_TYPE_MAP"]) and not truth for t, truth, _ in pa.facts)
-            ok = nonempty and bool(ind) and len(pops) == 1 and len(apps) == 1 and apps[0].args[0] == item and (notmap or parity) and not se
+            tys_, _iw, _fw, fl = CS.summary(bf, pa, TOP) if TOP is not None else (set(), set(), set(), set())
+            indef = bool(tys_) and tys_ <= set(PA.flavour_types) and fl == {1}
+            even_if_map = T["CBOR_TYPE_MAP"] not in tys_ or parity is False
+            ok = empty is False and indef and even_if_map and len(pops) == 1 and len(apps) == 1 and apps[0].args[0] == TOP and not se
             chk.ob("C02.break", "break path %d: closes an open indefinite item (map: even parity)" % k, ok, bwhere, fn=bf.name, key="break-close:%d" % k,
-                   detail="" if ok else "non-empty: %s, indefinite: %s, not-map-or-even: %s" % (nonempty, bool(ind), notmap or parity))
+                   detail="" if ok else "stack known non-empty: %s, top known indefinite: %s (types %s, flavours %s), not a map or even count: %s"
+                   % (empty is False, indef, sorted(tys_), sorted(fl), even_if_map), path=pa.block_lines() if not ok else None)
         else:
             chk.ob("C02.break", "break path %d: otherwise a syntax error" % k, se, bwhere, fn=bf.name, key="break-err:%d" % k)
     tab = PA.table("_cbor_is_indefinite")
